@@ -16,10 +16,14 @@ def hexOfBytes (bs : List Nat) : String :=
 
 def bytesOfHex (s : String) : Option (List Nat) := (hexToBytes? s).map fun l => l.map (·.toNat)
 
+/-- 64-bit FNV-1a over bytes (same as `vh::Fnv` in harness/vh.h) -/
+def fnvBytes (bs : List Nat) : String :=
+  toHex (bs.foldl (fun (h : UInt64) b => (h ^^^ b.toUInt64) * 1099511628211) fnvInit).toNat
+
 def joinC (xs : List String) : String := String.join (xs.map (· ++ ","))
 
 def renderView (v : View) : String :=
-  "S=" ++ joinC (v.sections.map fun s => s!"{hexOfBytes s.name}:{s.align}:{s.order}:{s.size}:{s.vsize}") ++
+  "S=" ++ joinC (v.sections.map fun s => s!"{hexOfBytes s.name}:{s.align}:{s.order}:{s.size}:{s.vsize}:{fnvBytes s.data}") ++
   " O=" ++ joinC (v.byOrder.map toString) ++
   " L=" ++ joinC (v.labels.map fun l => s!"{hexOfBytes l.name}:{l.type}:{l.parent}") ++
   s!" N={v.named.length}" ++
@@ -133,14 +137,16 @@ def monRun (w : List String) : String :=
     fired := (field kv "fired").toNat?.getD 0, errOk := field kv "err" == "ok",
     out := field kv "out", exec := field kv "exec", reuse := field kv "reuse", rexec := field kv "rexec",
     fresh := field kv "fresh", fexec := field kv "fexec", leak := (field kv "leak").toNat?.getD 1,
-    clean := field kv "clean", cexec := field kv "cexec" }
+    clean := field kv "clean", cexec := field kv "cexec",
+    strictRetry := w.headD "" == "asmretry" && (w.getD 1 "") != "multi" }
   if kv.lookup "clean" == none then "BAD unparsable record" else
   if runGood r then "good" else "BAD " ++
     (if !(r.errOk == false || sameCode r.out r.exec r.clean r.cexec) then "no error reported but the produced code differs;" else "") ++
     (if !(r.fired > 0 || r.errOk) then "error without an injected failure;" else "") ++
     (if r.leak != 0 then "leak;" else "") ++
     (if !(sameCode r.reuse r.rexec r.clean r.cexec && r.reuse.contains ':') then "the same objects do not reproduce the failure-free output;" else "") ++
-    (if !(r.fresh == r.clean && r.fexec == r.cexec) then "fresh objects do not reproduce the failure-free output;" else "")
+    (if !(r.fresh == r.clean && r.fexec == r.cexec) then "fresh objects do not reproduce the failure-free output;" else "") ++
+    (if r.strictRetry && !(r.errOk && r.out == r.clean) then "repeating the failed call did not produce the failure-free code;" else "")
 
 def stepLine (d : DS) (line : String) : DS × String :=
   match line.splitOn " => " with
